@@ -5491,29 +5491,53 @@ func (a *Agent) forwardShellClientData(streamID uint64, nextHop identity.AgentID
 			return // Adapter closed
 		}
 
-		// Encrypt data before sending
-		encryptedData, err := sessionKey.Encrypt(data)
-		if err != nil {
-			a.logger.Error("failed to encrypt shell client data",
-				logging.KeyStreamID, streamID,
-				logging.KeyError, err)
-			adapter.Close()
-			return
-		}
+		for _, msg := range splitShellClientMessage(data) {
+			// Encrypt data before sending
+			encryptedData, err := sessionKey.Encrypt(msg)
+			if err != nil {
+				a.logger.Error("failed to encrypt shell client data",
+					logging.KeyStreamID, streamID,
+					logging.KeyError, err)
+				adapter.Close()
+				return
+			}
 
-		frame := &protocol.Frame{
-			Type:     protocol.FrameStreamData,
-			StreamID: streamID,
-			Payload:  encryptedData,
-		}
-		if err := a.peerMgr.SendToPeer(nextHop, frame); err != nil {
-			a.logger.Debug("shell client send error",
-				logging.KeyStreamID, streamID,
-				logging.KeyError, err)
-			adapter.Close()
-			return
+			frame := &protocol.Frame{
+				Type:     protocol.FrameStreamData,
+				StreamID: streamID,
+				Payload:  encryptedData,
+			}
+			if err := a.peerMgr.SendToPeer(nextHop, frame); err != nil {
+				a.logger.Debug("shell client send error",
+					logging.KeyStreamID, streamID,
+					logging.KeyError, err)
+				adapter.Close()
+				return
+			}
 		}
 	}
+}
+
+// splitShellClientMessage splits a STDIN message whose sealed form would not
+// fit into a single frame into several STDIN messages that do. The remote
+// shell opens every STREAM_DATA payload as one sealed message, so an oversized
+// message cannot simply be cut at the frame boundary. Other message types
+// (resize, signal) are small and returned unchanged.
+func splitShellClientMessage(data []byte) [][]byte {
+	maxPlaintext := protocol.MaxPayloadSize - crypto.EncryptionOverhead
+	if len(data) <= maxPlaintext || data[0] != shell.MsgStdin {
+		return [][]byte{data}
+	}
+	var msgs [][]byte
+	for payload := data[1:]; len(payload) > 0; {
+		n := maxPlaintext - 1
+		if n > len(payload) {
+			n = len(payload)
+		}
+		msgs = append(msgs, shell.EncodeStdin(payload[:n]))
+		payload = payload[n:]
+	}
+	return msgs
 }
 
 // cleanupShellClientStream cleans up a shell client stream.
